@@ -130,16 +130,11 @@ Definition ah_header_len (raw_icv_len : N) : N := 12 + raw_icv_len * 4.
 (* Ipv6RawExtHeader::header_len: 2 + (6 + usize::from(self.header_length) * 8) *)
 Definition rawext_header_len (header_length : N) : N := 2 + (6 + header_length * 8).
 
-(* Ipv4Extensions { auth: Option<IpAuthHeader> }  (the u8 raw_icv_len) *)
-Definition v4exts := option N.
+(* Ipv4Extensions { auth: Option<IpAuthHeader> } / Ipv6Extensions: the u8 length
+   fields of the headers that are present (records v4exts / v6exts of Spec.v) *)
 Definition v4exts_header_len (x : v4exts) : N :=
   match x with Some l => ah_header_len l | None => 0 end.
 
-(* Ipv6Extensions: the u8 length fields of the headers that are present *)
-Record v6exts := {
-  x_hop : option N; x_dst : option N;
-  x_route : option (N * option N);       (* routing, final destination options *)
-  x_frag : bool; x_auth : option N }.
 Definition v6exts_header_len (x : v6exts) : N :=
   let result := 0 in
   let result := match x_hop x with Some l => result + rawext_header_len l | None => result end in
